@@ -96,7 +96,7 @@ fn u11_child_count_representable() {
 	kani::assume(d <= 4);
 	let c: u8 = kani::any();
 	let data = vec![0u8; d];
-	assert!(packed_node_size(&data, c) == d + 8 * c as usize + 1, "U11.packed_node_size");
+	assert!(packed_node_size(&data, c as _) == d + 8 * c as usize + 1, "U11.packed_node_size");
 }
 
 // reader on a well-formed packed node: `nchild` children (concrete), `dlen` data bytes (concrete), contents symbolic
